@@ -179,6 +179,15 @@ func (w *World) Step(o HistOpts) string {
 				if o.BiasUnique && r.P(0.3) {
 					w.aimAtUnique(x)
 				}
+				if ups := w.cfg.uniquePathsSorted(); o.BiasUnique && len(batch) > 0 && len(ups) > 0 && r.P(0.2) {
+					// the unique value of an earlier member of this very batch, possibly in another
+					// letter case (equal only once the constraints have been applied)
+					up := pick(r, ups)
+					if c := w.cfg.Fields["KS"]; c.Unique && (c.Lower || c.Upper) && r.Bool() {
+						up = "KS"
+					}
+					copyUnique(r, x, batch[r.Intn(len(batch))], up)
+				}
 				batch = append(batch, x)
 			}
 		}
